@@ -729,8 +729,20 @@ def r3(db, rep):
         t = " ".join(facts.expr_str(x) for x in facts.fn_nodes(last[0]) if x["k"] in ("CXXMemberCallExpr", "BinaryOperator"))
         last_ok = "ext_headers_.back().option(value)" in t.replace("this->", "") and "header_.next_header = value" in t
     any_first = any(member_store(f, x) and member_store(f, x)[0] == "next_header" for x in facts.fn_nodes(f))
+    wrong_end = False
+    if last and not last_ok:
+        # the upper-layer tag written into another element than the LAST header (front(), begin(), [0])
+        for x in facts.fn_nodes(last[0]):
+            if x["k"] == "CXXMemberCallExpr" and x.get("cname") == "option" and len(x["c"]) == 2:
+                recv = facts.expr_str(x["c"][0]).replace("this->", "")
+                if "ext_headers_" in recv and "back()" not in recv and "rbegin" not in recv and "size() - 1" not in recv:
+                    wrong_end = True
     if first and last_ok:
         rep.ok("R3-tags", key, facts.loc(f), "fixed header <- type of header 0; last header (or fixed header) <- upper-layer tag")
+    elif wrong_end:
+        rep.violation("R3-tags", key, facts.loc(last[0]),
+                      "set_last_next_header() writes the upper-layer tag into an extension header other than the LAST one: with two or more "
+                      "extension headers the first one announces the payload and the rest of the chain is skipped by every parser")
     elif not any_first and not last:
         rep.violation("R3-tags", key, facts.loc(f), "the ends of the next-header chain are not linked (fixed header / last header)")
     else:
